@@ -117,7 +117,7 @@ func drawC06(t *rapid.T, maxBlock, maxTotal int) C06Case {
 	bs := int(c.Cfg.BlockSize)
 	maxLen := min(maxTotal, (int(c.Cfg.Jobs)+2)*bs)
 	if c.Cfg.Entropy == "TPAQ" || c.Cfg.Entropy == "TPAQX" || c.Cfg.Entropy == "CM" {
-		maxLen = min(maxLen, 64*1024)
+		maxLen = min(maxLen, 64*1024, 3*bs)
 	}
 	c.Data = gen.DrawRecipe(t, maxLen, "data")
 	c.Cfg.Hint, c.Cfg.HintClass = 0, "absent"
